@@ -412,8 +412,20 @@ class Evaluator:
                     if init:
                         th = self.find_throw(init[-1])
                         env[d['id']] = self.ev(init[-1], env)
+                        # aggregate initialisation `T v{a, b, c};`: remember the members
+                        ini = strip(init[-1])
+                        while ini.get('kind') in ('ExprWithCleanups', 'CXXConstructExpr', 'MaterializeTemporaryExpr') \
+                                and len(children(ini)) == 1 and strip(children(ini)[0]).get('kind') == 'InitListExpr':
+                            ini = strip(children(ini)[0])
+                        if ini.get('kind') == 'InitListExpr':
+                            from .program import norm_type_name
+                            rec = self.prog.records.get(norm_type_name(d.get('type') or ''))
+                            args = children(ini)
+                            if rec is not None and rec.fields and len(args) == len(rec.fields):
+                                for fd, a in zip(rec.fields, args):
+                                    env[('member', d['id'], fd.get('name'))] = self.ev(a, env)
                     else:
-                        env[d['id']] = UNKNOWN
+                        env.setdefault(d['id'], UNKNOWN)     # keeps a value the caller preset (sink targets)
             yield None, env
             return
         if k in ('NullStmt',):
